@@ -68,14 +68,18 @@ func R_C20_use() {
 		go func(i int) {
 			defer wg.Done()
 			for j := 0; j < 30; j++ {
-				data := map[string]interface{}{"c": map[string]interface{}{"s": "x", "u": 3}, "l": []map[string]interface{}{{"k": 1, "v": "a"}}, "top": "t"}
+				data := map[string]interface{}{"c": map[string]interface{}{"s": "x", "u": 3}, "l": []map[string]interface{}{{"k": 1, "v": "a"}}, "top": "t",
+					"t": map[string]interface{}{"r": 150, "ln": "abcd", "un": 55, "d64": 6.5}}
 				b := node.NewBrowser(m, ReflectChild(data))
 				WriteJSON(b.Root())
 				if sel, err := b.Root().Find("c?depth=1"); err == nil && sel != nil {
 					WriteJSON(sel)
 				}
-				rdr, _ := ReadJSON(`{"c":{"s":"y"}}`)
+				rdr, _ := ReadJSON(`{"c":{"s":"y"},"t":{"r":15,"un":"abcde","rl":[9,1],"ln":"ab","d64":9.5}}`)
 				b.Root().UpsertFrom(rdr)
+				if sel, err := b.Root().Find("t/r"); err == nil && sel != nil {
+					sel.SetValue(100 + i + j)
+				}
 			}
 		}(i)
 	}
